@@ -101,6 +101,23 @@ int p_c06(void)
 			free(G);
 		}
 	}
+	/* the same (k, n-k) in GF(2^4) and GF(2^8), back to back in one process, in both directions (anything remembered between
+	 * sessions must be keyed on the field as well); codec 1 in between */
+	rep_unit(unit);
+	if (rep_unit_mine(unit)) {
+		rng_t rng = rng_make(g_run.seed, 650, 0);
+		for (uint32_t k = 1; k <= 14; k++) for (uint32_t r = 1; k + r <= 15; r += (T ? 1 : 3)) {
+			uint8_t *G4 = malloc((size_t)(k + r) * k + 1), *G8 = malloc((size_t)(k + r) * k + 1);
+			if (rsref_generator(4, k, k + r, G4) || rsref_generator(8, k, k + r, G8)) rep_fatal("rsref: singular (toggle)");
+			uint32_t L = LENS[(k + r) % nl];
+			rs_case(2, 4, k, r, L, PAY_RANDOM, 0, &rng, G4, NULL);
+			rs_case(2, 8, k, r, L, PAY_RANDOM, 0, &rng, G8, NULL);
+			rs_case(2, 4, k, r, L, PAY_RANDOM, 0, &rng, G4, NULL);
+			if ((k + r) % 4 == 0) { rs_case(1, 0, k, r, L, PAY_RANDOM, 0, &rng, G8, NULL); rs_case(2, 8, k, r, L, PAY_RANDOM, 0, &rng, G8, NULL); }
+			free(G4); free(G8);
+		}
+	}
+	unit++;
 	/* LDPC-Staircase */
 	static const uint32_t ks[] = { 1, 2, 3, 4, 5, 6, 7, 8, 9, 10, 12, 16, 20, 33, 64, 100, 257, 1000 };
 	static const uint32_t seeds[] = { 1, 2, 16807, 2147483646u };
@@ -120,6 +137,14 @@ int p_c06(void)
 				}
 		}
 	}
+	/* equations with 31..33 / 63..65 terms */
+	rep_unit(unit);
+	if (rep_unit_mine(unit)) {
+		rng_t rng = rng_make(g_run.seed, 897, 0);
+		static const uint32_t kk[] = { 60, 62, 63, 64, 65, 66, 126, 127, 128, 130 };
+		for (unsigned i = 0; i < sizeof kk / sizeof kk[0]; i++) { ldpc_case(kk[i], 8, 4, seeds[i % 4], LENS[rng_below(&rng, nl)], PAY_RANDOM, 0, &rng); ldpc_case(kk[i], 6, 3, seeds[(i + 1) % 4], LENS[rng_below(&rng, nl)], PAY_RANDOM, 0, &rng); }
+	}
+	unit++;
 	/* (N1*k)^2 above 2^33 (see p_c05.c): the canonical codeword of a large, high-degree code */
 	rep_unit(unit);
 	if (rep_unit_mine(unit)) { rng_t rng = rng_make(g_run.seed, 898, 0); ldpc_case(30000, 300, 8, 1 + (uint32_t)(rng_u64(&rng) % 2147483646u), 4, PAY_RANDOM, 0, &rng); ldpc_case(12000, 6000, 10, 16807, 4, PAY_RANDOM, 0, &rng); }
